@@ -638,13 +638,15 @@ class XsdAttributeGroup(
     def iter_value_constraints(self, use_defaults: bool = True) -> Iterator[tuple[str, str]]:
         if use_defaults:
             for k, v in self._attribute_group.items():
-                if v.fixed is not None and k:
+                if v.use == 'prohibited':
+                    continue
+                elif v.fixed is not None and k:
                     yield k, v.fixed
                 elif v.default is not None and k:
                     yield k, v.default
         else:
             for k, v in self._attribute_group.items():
-                if v.fixed is not None and k:
+                if v.fixed is not None and k and v.use != 'prohibited':
                     yield k, v.fixed
 
     def iter_components(self, xsd_classes: ComponentClassType = None) \
@@ -706,10 +708,16 @@ class XsdAttributeGroup(
                     context.validation_error(validation, self, reason, obj)
                     continue
             else:
-                if xsd_attribute.use == 'prohibited' and xsd_attribute.fixed is None and \
-                        (None not in self or not self._attribute_group[None].is_matching(name)):
-                    reason = _("use of attribute %r is prohibited") % name
-                    context.validation_error(validation, self, reason, obj)
+                if xsd_attribute.use == 'prohibited':
+                    # A prohibited attribute use corresponds to no component at all: the
+                    # attribute is admitted only through the attribute wildcard (if any).
+                    if None in self._attribute_group and \
+                            self._attribute_group[None].is_matching(name):
+                        xsd_attribute = self._attribute_group[None]
+                        value = (name, value)
+                    else:
+                        reason = _("use of attribute %r is prohibited") % name
+                        context.validation_error(validation, self, reason, obj)
 
             context.attribute = name
             item = xsd_attribute.raw_decode(value, validation, context)
